@@ -18,6 +18,8 @@ def run(c):
     c.tlc_mc("GsMCache", "MCGsMCache_shift_canary.cfg", expect=["KeptExactly", "GossipExact", "IwantOnly"])
     c.tlc_mc("GsMCache", "MCGsMCache_gossip_canary.cfg", expect="GossipExact")
     if not c.quick:
+        # the message cache as coded before the repair (remove() keeps the stale history entry)
+        c.tlc_mc("GsMCache", "MCGsMCache_impl.cfg", expect=["KeptExactly", "GossipExact"])
         c.tlc_mc("GsDupCache", "MCGsDupCache_big.cfg", timeout=1500)
         c.tlc_mc("GsMCache", "MCGsMCache_big.cfg", timeout=1500)
     drv = c.build("drv-gscodec")
